@@ -396,7 +396,8 @@ claim(
     "directory entries, pending log - is written directly): from a state with one durable file (symbolic contents), one orphan inode "
     "whose entry was never synced, and one of five pending unsynced histories (overwrite + create, rename, remove, truncate, mkdir + "
     "create inside), Fs::crash leaves exactly the durable image: the durable file with its last-synced contents and length, nothing "
-    "else, an empty pending log, inode tables holding exactly the durable objects. With a torn-write block size and the rng word "
+    "else, an empty pending log, inode tables holding exactly the durable objects; a durable directory holding a durable file survives "
+    "with the unsynced removal of both rolled back. With a torn-write block size and the rng word "
     "that lets no block survive, pending writes leave no trace and a write to a non-durable file leaves nothing.",
     "NARROW CLAIM: Fs::crash (and the no-survivor path of apply_torn_writes) from directly constructed pre-states. The operations that "
     "BUILD the durable image - sync_file, sync_file_data, sync_dir - had no verdict under Kani (drain + partition of the pending Vec of a "
@@ -405,7 +406,7 @@ claim(
     "harness/turmoil-fs/lib.rs as tier=unshipped and are part of neither tier. Random background sync (sync_probability), io_uring "
     "fsync and the shims are not covered. A change confined to sync_* or to which torn prefix survives is NOT detected.",
     ["Fs::{crash, apply_torn_writes, file_exists, dir_exists, file_len, read_file}"],
-    "Bounds: 2 persisted files of 2 symbolic bytes, <= 2 pending ops per instance (5 instances), block size 1 with rng word 0; unwind 10.",
+    "Bounds: 1-2 persisted files of 2 symbolic bytes, <= 2 pending ops per instance (6 instances), block size 1 with rng word 0; unwind 10.",
     "sync_file / sync_file_data / sync_dir, surviving torn blocks, sync_probability, io_uring, shims, files longer than 2 bytes",
     FS_ASSUME,
 )
